@@ -2,8 +2,7 @@ package main
 
 import (
 	"bufio"
-	"encoding/json"
-	"fmt"
+		"fmt"
 	"os"
 	"path/filepath"
 	"sort"
@@ -196,8 +195,7 @@ func (r *Run) Finish() int {
 			nviol++
 			path := filepath.Join(vdir, "replay", fmt.Sprintf("%s-%d.json", r.Prop, nviol))
 			rep := map[string]any{"property": r.Prop, "rule": o.Rule, "rule_text": r.RuleText[o.Rule], "instance": o.Key, "site": o.Pos, "detail": o.Detail, "kind": o.Kind, "tier": r.Tier}
-			bs, _ := json.MarshalIndent(rep, "", " ")
-			os.WriteFile(path, bs, 0o644)
+			writeJSON(path, rep)
 			fmt.Printf("%s: [%s] %s: %s\n", o.Pos, o.Rule, o.Key, o.Detail)
 			fmt.Printf("VIOLATION property=%s replay=%s\n", r.Prop, path)
 		}
@@ -265,8 +263,7 @@ func (r *Run) Finish() int {
 		"wall_s":      time.Since(r.Start).Seconds(),
 		"violations":  nviol,
 	}
-	bs, _ := json.MarshalIndent(ev, "", " ")
-	if err := os.WriteFile(filepath.Join(vdir, "evidence", r.Prop+".json"), bs, 0o644); err != nil {
+	if err := writeJSON(filepath.Join(vdir, "evidence", r.Prop+".json"), ev); err != nil {
 		fmt.Fprintln(os.Stderr, "cannot write evidence:", err)
 		return 2
 	}
